@@ -18,11 +18,17 @@ POP = "wsd_work_stealing_deque_pop_bottom"
 SIZE = "wsd_work_stealing_deque_size"
 
 
-def deque_field(fn, call):
-    f = field_of(fn, fn.args(call)[0])
-    if f is None:
+def deque_fields(fn, call):
+    from rules import possible_fields
+    fs = possible_fields(fn, fn.args(call)[0])
+    if not fs:
         raise AnalysisBroken("%s: cannot classify deque argument of %s" % (fn.name, call.text))
-    return f
+    return fs
+
+
+def deque_field(fn, call):
+    """the (first) field; callers that must consider every possibility use deque_fields"""
+    return sorted(deque_fields(fn, call))[0]
 
 
 def check_wsd(ctx, P, sched, nxt, tag=""):
@@ -31,8 +37,8 @@ def check_wsd(ctx, P, sched, nxt, tag=""):
     if not pushes or not pops:
         raise AnalysisBroken("scheduler shape not recognised: schedule has %d push_bottom, next has %d pop_bottom"
                              % (len(pushes), len(pops)))
-    push_fields = {deque_field(sched, c) for c in pushes}
-    pop_fields = {deque_field(nxt, c) for c in pops}
+    push_fields = set().union(*[deque_fields(sched, c) for c in pushes])
+    pop_fields = set().union(*[deque_fields(nxt, c) for c in pops])
     o = ctx.ob("batch" + tag, sched,
                "the deque fiber_scheduler_schedule pushes to is a different field from the one "
                "fiber_scheduler_next pops (LIFO pop => generation batching needs two deques)",
@@ -40,8 +46,8 @@ def check_wsd(ctx, P, sched, nxt, tag=""):
                "every fiber below them in that deque starves (replayed: D1)")
     both = push_fields & pop_fields
     if both:
-        c = [c for c in pushes if deque_field(sched, c) in both][0]
-        o.fail("schedule pushes onto `%s`, the deque that fiber_scheduler_next pops" % (sorted(both)[0][1]),
+        c = [c for c in pushes if deque_fields(sched, c) & both][0]
+        o.fail("schedule can push onto `%s`, the deque that fiber_scheduler_next pops" % (sorted(both)[0][1]),
                site=c, construct="push_bottom(%s) in schedule; pop_bottom(%s) in next" % (sorted(both)[0][1], sorted(both)[0][1]))
     else:
         o.ok("push -> %s ; pop <- %s" % (sorted(f[1] for f in push_fields), sorted(f[1] for f in pop_fields)), pushes + pops)
@@ -93,7 +99,7 @@ def check_wsd(ctx, P, sched, nxt, tag=""):
     if not re:
         o.fail("next does not re-queue SAVING fibers", site=nxt.loc, construct="no re-push")
     else:
-        badc = [c for c in re if deque_field(nxt, c) in pop_fields]
+        badc = [c for c in re if deque_fields(nxt, c) & pop_fields]
         if badc:
             o.fail("re-push onto the popped deque `%s`" % deque_field(nxt, badc[0])[1], site=badc[0],
                    construct="re-push onto popped deque")
@@ -144,8 +150,8 @@ def run(ctx):
                site=sw.loc, construct="to_schedule hand-over missing")
     else:
         o.ok("to_schedule set at %s, scheduled at %s" % (ts[0].node.loc, ms[0].loc), [ts[0].node, ms[0]])
-    ctx.derived["push_fields"] = sorted(f[1] for f in {deque_field(sched, c) for c in sched.calls(PUSH)})
-    ctx.derived["pop_fields"] = sorted(f[1] for f in {deque_field(nxt, c) for c in nxt.calls(POP)})
+    ctx.derived["push_fields"] = sorted(f[1] for c in sched.calls(PUSH) for f in deque_fields(sched, c))
+    ctx.derived["pop_fields"] = sorted(f[1] for c in nxt.calls(POP) for f in deque_fields(nxt, c))
 
 
 def thorough(ctx):
